@@ -387,7 +387,8 @@ type outcome struct {
 	verdict      string   // what the receiver made of it
 	opnReq       int      // body bytes of the OpenSecureChannel request / response seen
 	opnResp      int
-	opn          string   // "" or the side that refused the OpenSecureChannel message (then wire/n/verdict describe that message)
+	hsRefused    bool   // the client refused the Acknowledge (buffers below 8192): nothing else happened
+	opn          string // "" or the side that refused the OpenSecureChannel message (then wire/n/verdict describe that message)
 }
 
 func msgSizes(fs []frameRec, perChunk int) (sizes []uint32, n int, final bool) {
@@ -412,6 +413,10 @@ func transfer(C, S ack4, dir string, payload int, seed uint32, sign bool) (*outc
 	}
 	l, err := connect(C, S)
 	if err != nil {
+		// Conn.Handshake refuses an Acknowledge whose buffers are below the protocol minimum
+		if strings.Contains(err.Error(), "handshake(client)") && strings.Contains(err.Error(), "invalid buffer sizes in ACK") {
+			return &outcome{hsRefused: true}, nil
+		}
 		return nil, err
 	}
 	defer l.close()
@@ -558,11 +563,11 @@ func exceeds(adv ack4, n, chunks int) bool {
 }
 
 type env struct {
-	r        *h.Result
-	d        *h.Driver
-	ovReq    int // body bytes of a request / response with a 0-byte payload… measured once
-	ovResp   int
-	seed     uint32
+	r         *h.Result
+	d         *h.Driver
+	ovReq     int // body bytes of a request / response with a 0-byte payload… measured once
+	ovResp    int
+	seed      uint32
 	def, defS ack4 // uacp.DefaultClientACK / DefaultServerACK of the tree under check
 }
 
@@ -592,6 +597,20 @@ func (e *env) eval(tc tcase) bool {
 	want := tc.payload + e.ovReq
 	if tc.dir == "s2c" {
 		want = tc.payload + e.ovResp
+	}
+	if o.hsRefused {
+		line := tc.line(want)
+		e.r.Count(line, true)
+		e.r.Compare(e.d, line, "handshake refused-by-client")
+		e.r.Hit("handshake-refused(buffer<8192)")
+		// oracle: the refusal is right exactly when the Acknowledge is below the protocol minimum
+		if tc.S.rcv >= 8192 && tc.S.snd >= 8192 {
+			e.fail(line, "", "the client refused an Acknowledge with buffers of at least 8192")
+		}
+		return false
+	}
+	if tc.S.rcv < 8192 || tc.S.snd < 8192 {
+		e.fail(tc.line(want), "", fmt.Sprintf("the client adopted an Acknowledge with buffers %d/%d below the protocol minimum 8192", tc.S.rcv, tc.S.snd))
 	}
 	line := tc.line(want)
 	if o.opn == "" && o.n != want && e.ovReq != 0 {
@@ -909,7 +928,7 @@ func main() {
 		}
 	}
 	for _, b := range []string{"dir:c2s", "dir:s2c", "verdict:ok", "verdict:chunk-too-large", "verdict:too-many-chunks", "verdict:message-too-large",
-		"mode:None", "mode:Sign/Basic256Sha256", "buffers:symmetric", "buffers:asymmetric", "limit:0(unlimited)", "chunks:1", "chunks:2", "chunks:5"} {
+		"handshake-refused(buffer<8192)", "mode:None", "mode:Sign/Basic256Sha256", "buffers:symmetric", "buffers:asymmetric", "limit:0(unlimited)", "chunks:1", "chunks:2", "chunks:5"} {
 		if r.Distribution[b] == 0 {
 			r.Unreached = append(r.Unreached, b)
 		}
